@@ -190,10 +190,10 @@ class SymInputs(_Base):
             return b""
         return SBytes(terms)
 
-    def date(self, name: str):
+    def date(self, name: str, lo: int = 0, hi: int = 2**31 - 1):
         v = z3.Int(name)
         self.vars[name] = ("int", v)
-        self.ctx.add(z3.And(v >= 0, v < 2**31))
+        self.ctx.add(z3.And(v >= lo, v <= hi))
         return shims.SymDate(SInt(v))
 
     def payload(self, name: str, size):
@@ -406,6 +406,71 @@ class SymInputs(_Base):
 
     def eval_observations(self, model) -> list:
         return [(n, canon(v, model)) for n, v in self.obs]
+
+    def diverse_inputs(self, k: int, seed: int = 0) -> list:
+        """Up to k further solver models of the current path condition, each biased by a
+        random set of soft constraints towards collisions and special values (equal
+        sizes / formats / channels / characters, zeros, extreme values).  Used only when a
+        path left the modelled subset and is degraded to concrete runs on the real build."""
+        import random
+
+        rng = random.Random(seed)
+        groups = {"int": [], "bv": {}, "f": {}, "ch": []}
+        for name, spec in self.vars.items():
+            kind = spec[0]
+            if kind == "int":
+                groups["int"].append(spec[1])
+            elif kind == "bvint":
+                groups["bv"].setdefault(spec[1], []).append(spec[3])
+            elif kind == "bvintarr":
+                groups["bv"].setdefault(spec[1], []).extend(spec[3])
+            elif kind == "bits":
+                groups["f"].setdefault(spec[1], []).append(spec[2])
+            elif kind == "bitsarr":
+                groups["f"].setdefault(spec[1], []).extend(spec[3])
+            elif kind == "str":
+                groups["ch"].extend(spec[1])
+        out = []
+        for _ in range(k):
+            atoms = []
+            ints = groups["int"]
+            for _ in range(6):
+                if len(ints) >= 2:
+                    a, b = rng.sample(ints, 2)
+                    atoms.append(a == b)
+                if ints:
+                    atoms.append(rng.choice(ints) == rng.choice([0, 1, 2, 255, 256]))
+            for w, terms in groups["bv"].items():
+                for _ in range(4):
+                    if len(terms) >= 2:
+                        a, b = rng.sample(terms, 2)
+                        atoms.append(a == b)
+                    atoms.append(rng.choice(terms) == rng.choice([0, 1, (1 << w) - 1, 1 << (w - 1), (1 << (w - 1)) - 1]))
+            for w, terms in groups["f"].items():
+                specials = [0, 1 << (w - 1), (0x3F800000 if w == 32 else 0x3FF0000000000000), (0x7F7FFFFF if w == 32 else 0x7FEFFFFFFFFFFFFF),
+                            (0x7F800000 if w == 32 else 0x7FF0000000000000), (0x7FC00000 if w == 32 else 0x7FF8000000000000), 1]
+                for _ in range(6):
+                    atoms.append(rng.choice(terms) == rng.choice(specials))
+                    if len(terms) >= 2:
+                        a, b = rng.sample(terms, 2)
+                        atoms.append(a == b)
+            chs = groups["ch"]
+            for _ in range(6):
+                if len(chs) >= 2:
+                    a, b = rng.sample(chs, 2)
+                    atoms.append(a == b)
+                if chs:
+                    atoms.append(rng.choice(chs) == rng.choice([0x20, 0x41, 0x61, 0x80, 0x20AC, 0xE9, 0x85]))
+            rng.shuffle(atoms)
+            saved = self.ctx.prefs
+            self.ctx.prefs = list(saved) + atoms[:24]
+            try:
+                r, m = self.ctx.model_for()
+            finally:
+                self.ctx.prefs = saved
+            if r == "sat":
+                out.append(self.model_inputs(m))
+        return out
 
 
 def _split(cond) -> list:
@@ -694,8 +759,8 @@ class ConcInputs(_Base):
     def rawbytes(self, name: str, n: int):
         return bytes(self._get(_akey(name, (n,)), [0] * n))
 
-    def date(self, name: str):
-        return _rdt.datetime.fromtimestamp(int(self._get(name, 1_000_000_000)))
+    def date(self, name: str, lo: int = 0, hi: int = 2**31 - 1):
+        return _rdt.datetime.fromtimestamp(int(self._get(name, max(lo, 1_000_000_000))))
 
     def payload(self, name: str, size):
         vals = list(self._get(name, []))
